@@ -26,11 +26,17 @@ import logging
 import random
 import signal
 import sys
+import zlib
 
 from . import term as TM
 from .wlib import ShardWriter
 
 BIG = 1 << 30
+
+
+def stable(obj, mod):
+    """deterministic, content-based slice selector (independent of how the surrounding population was thinned)"""
+    return mod <= 1 or zlib.crc32(json.dumps(obj, separators=(",", ":")).encode()) % mod == 0
 
 
 class _Timeout(Exception):
@@ -194,6 +200,10 @@ class Rec:
         self.unsupported = set(unsupported)   # exception names that mean "operand combination not supported"
         self.nunsupported = 0
         self.ninputs = 0           # distinct (operation, operands) inputs executed
+        self.cur = None            # batch under construction
+        self.nsub = 0              # sub-events written
+        self.nontrivial = 0        # sub-events with a result (distinct by construction: every input is visited once)
+        self.outcomes = {}
 
     def note(self, kind, payload, srcw):
         """remember intervals that are not well-formed: they are fed back as operands (closure tier).  closure_x:
@@ -219,28 +229,39 @@ class Rec:
             else:
                 merged.append([how, exc, kind, payload])
         for how, exc, kind, payload in merged:
-            ev = dict(base)
-            ev["how"] = how
-            ev["exc"] = exc
-            ev["cls"] = self.cls
-            ev.setdefault("p", [])
-            ev.setdefault("ctx", "si")
-            ev["R"] = []
-            ev["rb"] = [1, 1]
+            R, rb = [], [1, 1]
             if not exc:
                 if kind == "si":
-                    ev["R"] = payload
+                    R = payload
                     self.note(kind, payload, base["A"][0][0])
                 elif kind == "bool":
-                    ev["rb"] = payload
+                    rb = payload
                 else:
-                    ev["exc"] = "ResultType:" + str(payload if kind == "other" else kind)
-            if ev["exc"]:
+                    exc = "ResultType:" + str(payload if kind == "other" else kind)
+            if exc:
                 self.nexc += 1
-            nt = bool(ev["R"]) or not ev["exc"]
-            self.out.write(ev, nontrivial_key=[ev["k"], ev["op"], ev.get("A"), ev.get("B"), ev.get("C"), ev["p"]] if nt else None,
-                           outcome=(ev["exc"] or "ok"),
-                           sample={kk: ev[kk] for kk in ("k", "op", "how", "A", "B", "p", "R", "rb") if kk in ev})
+            else:
+                self.nontrivial += 1
+            self.nsub += 1
+            self.outcomes[exc or "ok"] = self.outcomes.get(exc or "ok", 0) + 1
+            sub = [base["k"], base["op"], how, exc, base.get("p", []), R, rb, base.get("C", [])]
+            ctx = base.get("ctx", "si")
+            if self.cur is not None and (self.cur["A"] != base["A"] or self.cur["B"] != base.get("B", [])
+                                         or self.cur["ctx"] != ctx):
+                self.flush()
+            if self.cur is None:
+                self.cur = {"k": "batch", "op": "batch", "A": base["A"], "B": base.get("B", []), "ctx": ctx,
+                            "cls": self.cls, "subs": []}
+            self.cur["subs"].append(sub)
+
+    def flush(self):
+        """one ndjson line per operand tuple: the operands are parsed once by TLC, the sub-events
+        [kind, op, entry points, exc, params, R, rb, C] are checked one by one (clause reported with the sub index)"""
+        if self.cur is not None and self.cur["subs"]:
+            ev = self.cur
+            self.out.write(ev, nontrivial_key=[ev["A"], ev["B"], ev["ctx"], ev["subs"][0][1]], outcome="batch",
+                           sample={"A": ev["A"], "B": ev["B"], "subs": ev["subs"][:3]})
+        self.cur = None
 
 
 def run2(be, meth, args_factory, want=None):
@@ -610,6 +631,7 @@ def gen_dsis(job, out, rng):
         vsa.DEFAULT_MAX_CARDINALITY_WITHOUT_COLLAPSING = job["collapse"]
         ctx = "dsis-c%d" % job["collapse"]
     popD = dsis_population(W, job.get("mod3", 13))
+    popD0 = popD
     popD = [A for i, A in enumerate(popD) if i % job.get("mod_pop", 1) == 0]
     if job.get("sample"):
         popD = rng.sample(popD, min(job["sample"], len(popD)))
@@ -633,8 +655,8 @@ def gen_dsis(job, out, rng):
             dsis_events(rec, A, B, ops, ctx, kinds)            # DSIS op SI
             if not job.get("no_reflect"):
                 dsis_events(rec, B, A, ops, ctx, kinds & {"bin", "cmp", "join", "meet"})   # SI op DSIS
-        for j, B in enumerate(popD):
-            if (i * 7919 + j) % modp == 0:
+        for B in popD0:
+            if stable([A, B], modp):
                 dsis_events(rec, A, B, ops, ctx, kinds)        # DSIS op DSIS (deterministic slice)
     # union of plain intervals with the DSIS switch on (StridedInterval.union -> DSIS)
     if job.get("union_si") and part == 0:
@@ -721,6 +743,7 @@ VS_BIN = {"add": "__add__", "sub": "__sub__", "and": "__and__", "mod": "__mod__"
 def gen_vs(job, out, rng):
     W = job["W"]
     popV = vs_population(W, job.get("mod2", 5))
+    popV0 = vs_population(W, job.get("mod2_right", 5))
     popS = wf_population(W)
     part, nparts = job.get("part", 0), job.get("nparts", 1)
     stats = {}
@@ -753,8 +776,8 @@ def gen_vs(job, out, rng):
                 vs_emit(out, {**base, "op": name}, run2(None, lambda a, b, nm=name: getattr(a, nm)(b), fresh), stats)
             vs_emit(out, {**base, "op": "concat", "wb": W},
                     run2(lambda a, b: be_call("Concat", (a, b)), None, fresh), stats)
-        for j, sb in enumerate(popV):
-            if (i * 7919 + j) % modvv != 0:
+        for sb in popV0:
+            if not stable([sa, sb], modvv):
                 continue
             base = {"k": "vs", "w": W, "Av": Av, "bt": "vs", "B": [], "Bv": vs_enc(sb), "ctx": "vs"}
             fresh = lambda: (mk_vs(sa, W), mk_vs(sb, W))  # noqa: E731
@@ -1229,7 +1252,10 @@ def gen_replay(job, out, rng):
             e2.update({"cls": 0, "exc": "", "how": "meth", "ctx": "si"})
             out.write(e2, outcome="q")
         elif k == "un" and len(ev["A"]) == 1:
-            gen_unary({"W": ev["A"][0][0], "popA": [ev["A"][0]], "maxw": max(6, ev["A"][0][0] + 2)}, out, rng)
+            r3 = gen_unary({"W": ev["A"][0][0], "popA": [ev["A"][0]], "maxw": max(6, ev["A"][0][0] + 2)}, out, rng)
+            r3.flush()
+        if k in ("bin", "cmp", "cat", "join", "meet") and not (len(ev["A"]) == 1 and len(ev.get("B", [])) == 1):
+            rec2.flush()
     return rec
 
 
@@ -1247,6 +1273,7 @@ def main():
     subjobs = job["jobs"] if job["gen"] == "multi" else [job]
     extra = {"closure": [], "closure_x": [], "nexc": 0, "unsupported": 0, "inputs": 0}
     seen = set()
+    sub_outcomes = {}
     real_write = out.write
     for sub in subjobs:
         tag = sub.get("tag", "det")
@@ -1259,6 +1286,15 @@ def main():
         out.write = (lambda *a, **k: None) if sub.get("harvest") else tagged_write
         rec = GENS[sub["gen"]](sub, out, random.Random(sub.get("seed", 0)))
         if isinstance(rec, Rec):
+            rec.flush()
+            if sub.get("harvest"):
+                extra["harvested_calls"] = extra.get("harvested_calls", 0) + rec.nsub
+                rec.ninputs = rec.nexc = rec.nunsupported = 0
+            else:
+                extra["subevents"] = extra.get("subevents", 0) + rec.nsub
+                extra["nontrivial_sub"] = extra.get("nontrivial_sub", 0) + rec.nontrivial
+                for k2, v2 in rec.outcomes.items():
+                    sub_outcomes[k2] = sub_outcomes.get(k2, 0) + v2
             for nm, d in (("closure", rec.closure), ("closure_x", rec.closure_x)):
                 for t in d.values():
                     if (nm, key(t)) not in seen:
@@ -1271,6 +1307,7 @@ def main():
             for k, v in rec.items():
                 extra[k] = extra.get(k, 0) + v
     out.write = real_write
+    extra["sub_outcomes"] = sub_outcomes
     out.close(extra)
 
 
